@@ -426,6 +426,29 @@ var initSkip = map[string]bool{
 
 func regIntrinsic(name string, h intrinsic) { intrinsics[name] = h }
 
+var nopIntrinsics = []string{
+	"(*sync.Mutex).Lock", "(*sync.Mutex).Unlock", "(*sync.RWMutex).Lock", "(*sync.RWMutex).Unlock",
+	"(*sync.RWMutex).RLock", "(*sync.RWMutex).RUnlock", "runtime.KeepAlive", "runtime.SetFinalizer", "runtime.GC",
+	"(*sync.Pool).Put", "internal/race.Acquire", "internal/race.Release", "internal/race.ReleaseMerge",
+	"internal/race.Disable", "internal/race.Enable", "internal/race.Read", "internal/race.Write",
+	"internal/race.ReadRange", "internal/race.WriteRange",
+}
+
+var nopSet = map[string]bool{}
+
+func isNopCallee(fn Value) bool {
+	fv, ok := fn.(FuncV)
+	if !ok {
+		return false
+	}
+	if len(nopSet) == 0 {
+		for _, n := range nopIntrinsics {
+			nopSet[n] = true
+		}
+	}
+	return nopSet[fv.Fn.String()]
+}
+
 func ret(v Value) (Value, bool) { return v, true }
 
 func atomicType(name string) types.Type {
@@ -495,15 +518,24 @@ func init() {
 		}
 	}
 	nop := func(w *Worker, st *State, f *Frame, x *ssa.Call, fv FuncV, a []Value) (Value, bool) { return nil, true }
-	for _, n := range []string{
-		"(*sync.Mutex).Lock", "(*sync.Mutex).Unlock", "(*sync.RWMutex).Lock", "(*sync.RWMutex).Unlock",
-		"(*sync.RWMutex).RLock", "(*sync.RWMutex).RUnlock", "runtime.KeepAlive", "runtime.SetFinalizer", "runtime.GC",
-		"(*sync.Pool).Put", "internal/race.Acquire", "internal/race.Release", "internal/race.ReleaseMerge",
-		"internal/race.Disable", "internal/race.Enable", "internal/race.Read", "internal/race.Write",
-		"internal/race.ReadRange", "internal/race.WriteRange",
-	} {
+	for _, n := range nopIntrinsics {
 		regIntrinsic(n, nop)
 	}
+	regIntrinsic("(*sync.Once).Do", func(w *Worker, st *State, f *Frame, x *ssa.Call, fv FuncV, a []Value) (Value, bool) {
+		// sequential semantics: run f iff not done; done is set before f runs (no re-entrancy modelled)
+		chkOpaque(a[0])
+		p := a[0].(Ptr)
+		if p.IsNil() {
+			panic(goPanic{msg: "nil pointer dereference (sync.Once)"})
+		}
+		done := needTerm(st.load(p, types.Typ[types.Uint32]), "once.done")
+		if w.decide(st, Eq(done, Const(32, 0))) {
+			st.store(p, types.Typ[types.Uint32], Const(32, 1))
+			w.pushCall(st, a[1], nil, retNormal, 0)
+			return nil, false
+		}
+		return nil, true
+	})
 	regIntrinsic("(*sync.Mutex).TryLock", func(w *Worker, st *State, f *Frame, x *ssa.Call, fv FuncV, a []Value) (Value, bool) {
 		return ret(TTrue)
 	})
